@@ -131,7 +131,15 @@ func runFault(c *corr.Ctx, s *cu.Spec, in *FaultInput, name string) {
 			continue
 		}
 		switch kind {
-		case "drop":
+		case "dropframe": // all packets of frame i (generic driver's fault kind)
+			var ns []tagged
+			for _, t := range stream {
+				if t.frame != i {
+					ns = append(ns, t)
+				}
+			}
+			stream = ns
+		case "drop", "droplast", "dropfirst":
 			stream = append(stream[:i:i], stream[i+1:]...)
 		case "dup":
 			stream = append(stream[:i+1:i+1], append([]tagged{{stream[i].p.Clone(), stream[i].frame, stream[i].idx}}, stream[i+1:]...)...)
